@@ -22,6 +22,8 @@ CIRCS = {
     # source; the distribution is over all modes, so the specification is the un-heralded record with the FULL input
     "her3": {"nu": 3, "anc": (), "hord": (), "ops": (("bs", (1, 2), (1, "Rx")), ("ps", (2,), 2), ("bs", (2, 3), (1, "H")), ("loss", (1,), 1)),
              "herald": (1, 2, 1)},
+    "wide5": {"nu": 5, "anc": (), "hord": (), "ops": (("bs", (1, 2), (1, "Rx")), ("bs", (2, 3), (1, "H")), ("bs", (3, 4), (1, "Rx")), ("bs", (4, 5), (1, "H")),
+                                                   ("ps", (3,), 2), ("bs", (2, 3), (1, "Rx")), ("loss", (5,), 1))},
     "lossy3b": {"nu": 3, "anc": (), "hord": (), "ops": (("bs", (3, 1), (1, "H")), ("bs", (1, 2), (1, "Rx")), ("loss", (2,), 1), ("perm", (1, 2, 3), (2, 3, 1)))},
 }
 
@@ -238,6 +240,10 @@ def run(tier):
                     chk.count(key=name + "/threshold")
                     chk.extra["probability_threshold_cases"] = chk.extra.get("probability_threshold_cases", 0) + 1
                     compare_real(chk, name + "_thr", rec, ins, nu, purity, indist, thresholded(exact_in, t), None, threshold=t)
+                    # a threshold exactly ON a weight keeps that input ("below the threshold" is removed); exact binary fractions only
+                    t2 = ws[1]
+                    if float(t2) == t2.numerator / t2.denominator and (t2.denominator & (t2.denominator - 1)) == 0 and purity == 1 and indist == 1:
+                        compare_real(chk, name + "_thr_eq", rec, ins, nu, purity, indist, thresholded(exact_in, t2), None, threshold=t2)
             # calibration of the evaluator on the rational grid
             e = ev_source(rec, ins, float(nu), float(purity), float(indist))
             for k in set(e) | set(exact_out):
@@ -250,11 +256,13 @@ def run(tier):
     if calib > 1e-12:
         raise MachineryError("source evaluator calibration failed: %.3g" % calib)
     # continuous source parameters: structure and outcome table from the specification, numbers by the calibrated evaluator
-    ncont = 60 if th else 10
+    ncont = 60 if th else 12
     for i in range(ncont):
         cname, ins = rng.choice(GRID_Q + [("lossy3b", (1, 0, 0))])
-        if i % 5 in (0, 2):        # three and four photons, two modes with the same occupation >= 2
-            cname, ins = [("lossy3", (1, 1, 1)), ("lossy3", (2, 0, 2)), ("hom2", (2, 2)), ("her3", (1, 1, 1)), ("lossy3b", (2, 1, 2)), ("hom2", (3, 2)), ("lossy3", (2, 2, 1))][(i // 5 + i) % 7]
+        if i % 5 in (0, 2):        # three to five photons, two modes with the same occupation >= 2, runs of three empty modes
+            special = [("lossy3", (1, 1, 1)), ("wide5", (1, 0, 0, 0, 1)), ("lossy3", (2, 0, 2)), ("hom2", (2, 2)), ("her3", (1, 1, 1)), ("lossy3b", (2, 1, 2)),
+                       ("wide5", (0, 1, 0, 0, 1)), ("hom2", (3, 2)), ("lossy3", (2, 2, 1))]
+            cname, ins = special[(2 * (i // 5) + (i % 5) // 2) % len(special)]
         nu, purity, indist = rng.uniform(0.3, 1), rng.uniform(0.75, 1), rng.uniform(0, 1)
         if rng.random() < 0.2:
             nu = 1.0
